@@ -2137,8 +2137,42 @@ class Evaluator:
             else:
                 args.append(('sym', nm))
         fr = {'id': self.new_frame_id(), 'args': args, 'this': '', 'depth': 0, 'fn': fn}
-        outs = self.exec_block(stmts(fn.body), [Path()], fr, top=True)
+        P0 = Path()
+        if self.dyn_class and not fn.get('ctor') and not getattr(self, 'no_ctor_constants', False) and self.prog is not None:
+            # integer / string members the constructor chain fixes and nothing else writes (dimension, mmsname): known on entry
+            P0.mem.update(cat.ctor_constants(self.prog, self.dyn_class))
+        P0.mem.update(getattr(self, 'init_mem', None) or {})     # members whose value on entry is known (e.g. the slot array after construction)
+        paths0 = [P0]
+        if fn.get('ctor'):
+            paths0 = self.ctor_inits(fn, P0, fr)
+        outs = []
+        for Pi in paths0:
+            outs.extend(self.exec_block(stmts(fn.body), [Pi], fr, top=True) if fn.body is not None else [Pi])
         return outs
+
+    def ctor_inits(self, fn, P, fr):
+        """the initialiser list of an entry constructor: constructors of intermediate base classes (those that take arguments or
+        are not the root manufactured_solution) run on the same object, member initialisers are stores"""
+        paths = [P]
+        root = cat.BASE % (self.scalar or 'double')
+        for i in fn.inits or []:
+            e = i.get('e')
+            if i.get('base') and i['base'] != root and isinstance(e, dict) and e.get('k') == 'construct':
+                cands = [f for f in self.prog.methods_of(i['base']) if f.get('ctor') and f.sig == e.get('ctor') and len(f.params) == len(e.get('args', []))]
+                if len(cands) != 1 or cands[0].body is None:
+                    continue
+                nxt = []
+                for Pi in paths:
+                    args = [self.E(a, Pi, fr) for a in e.get('args', [])]
+                    sub = {'id': self.new_frame_id(), 'args': args, 'this': fr['this'], 'depth': fr['depth'] + 1, 'fn': cands[0]}
+                    self.trace.inlined.add(cands[0].q)
+                    for Pj in self.ctor_inits(cands[0], Pi, sub):
+                        for o in self.exec_block(stmts(cands[0].body), [Pj], sub, top=True):
+                            if o.kind != 'exit':
+                                o.kind, o.ret = 'fall', None
+                                nxt.append(o)
+                paths = nxt or paths
+        return paths
 
 
 def const_object_type(ty):
